@@ -230,7 +230,7 @@ class C13(SchemaCheck):
         # membership, order and mandatory flags of every message's own definition are C13's claim as well
         general = SchemaCheck.strategy(self)
         variants = st.tuples(sg.st_schema_c14(), st.integers(0, 2 ** 32 - 1), st.booleans()).map(lambda t: {'model': t[0], 'r': t[1], 'all_fields': t[2]})
-        return st.one_of(general, general, general, variants)
+        return st.integers(0, 3).flatmap(lambda i: variants if i == 0 else general)
 
     def features(self, model):
         if model.get('family') == 'c14':
